@@ -174,7 +174,7 @@ theorem generate_verifies (id bits : Nat) (body : Bytes) (nq na nn ne : Nat) (ty
     (hbits : bits < 65536) (hauth : bits % 16 ≠ 9)
     (hq : nq < 65536) (ha : na < 65536) (hn : nn < 65536) (he : ne + 1 < 65536)
     (x : RRItem) (alg : Bytes) (ts fudge macSize : Nat) (mac : Bytes) (origId err olen : Nat) (other : Bytes)
-    (hx : IsTsig x alg ts fudge macSize mac origId err olen other) (hts : ts ≠ 0) (hfu : fudge ≠ 0)
+    (hx : IsTsig x alg ts fudge macSize mac origId err olen other)
     (requestMAC : Bytes) (timersOnly : Bool) (now wall : Nat) (check : Bytes → Bytes → Bytes → Bool)
     (hc : check (tsigDigest (hdr id bits nq na nn ne ++ body) origId
       ⟨presentOf x.spec.labels, x.spec.ttl, alg, ts, fudge, err, olen, other⟩ requestMAC timersOnly) alg mac = true)
@@ -190,7 +190,7 @@ theorem generate_verifies (id bits : Nat) (body : Bytes) (nq na nn ne : Nat) (ty
   have hv : tsigVarsOf s wall = ⟨presentOf x.spec.labels, x.spec.ttl, alg, ts, fudge, err, olen, other⟩ := by
     unfold tsigVarsOf
     rw [hbody, hx.vals, hname, httl]
-    simp [fieldN, fieldB, hts, hfu]
+    simp [fieldN, fieldB]
   have hd : stripDigest s requestMAC timersOnly wall = tsigDigest (hdr id bits nq na nn ne ++ body) origId
       ⟨presentOf x.spec.labels, x.spec.ttl, alg, ts, fudge, err, olen, other⟩ requestMAC timersOnly := by
     unfold stripDigest
@@ -214,7 +214,7 @@ theorem generate_verifies_plain (id bits : Nat) (qs : List QSpec) (an ns ex : Li
     (hbits : bits < 65536) (hauth : bits % 16 ≠ 9)
     (cq : qs.length < 65536) (ca : an.length < 65536) (cn : ns.length < 65536) (ce : ex.length + 1 < 65536)
     (x : RRItem) (alg : Bytes) (ts fudge macSize : Nat) (mac : Bytes) (origId err olen : Nat) (other : Bytes)
-    (hx : IsTsig x alg ts fudge macSize mac origId err olen other) (hts : ts ≠ 0) (hfu : fudge ≠ 0)
+    (hx : IsTsig x alg ts fudge macSize mac origId err olen other)
     (requestMAC : Bytes) (timersOnly : Bool) (now wall : Nat) (check : Bytes → Bytes → Bytes → Bool)
     (hc : check (tsigDigest (encodeMsg id bits qs an ns ex) origId
       ⟨presentOf x.spec.labels, x.spec.ttl, alg, ts, fudge, err, olen, other⟩ requestMAC timersOnly) alg mac = true)
@@ -228,7 +228,7 @@ theorem generate_verifies_plain (id bits : Nat) (qs : List QSpec) (an ns ex : Li
   rw [e] at hc ⊢
   exact generate_verifies id bits _ _ _ _ _ _ (plain_walks qs an ns ex hq han hns hex)
     (by intro t ht; simp only [List.mem_map] at ht; obtain ⟨y, hy, rfl⟩ := ht; exact hno y hy)
-    hbits hauth cq ca cn ce x alg ts fudge macSize mac origId err olen other hx hts hfu requestMAC timersOnly now wall check hc hbuf ht1 ht2
+    hbits hauth cq ca cn ce x alg ts fudge macSize mac origId err olen other hx requestMAC timersOnly now wall check hc hbuf ht1 ht2
 
 /-- **generate_verifies_compressed**: for the compressing packer of the model (`Compress` on) -/
 theorem generate_verifies_compressed (id bits : Nat) (qs : List QSpec) (an ns ex : List (RRItem × List Bool))
@@ -240,7 +240,7 @@ theorem generate_verifies_compressed (id bits : Nat) (qs : List QSpec) (an ns ex
     (hp : packMsgC id bits (qs.map QSpec.dec) (an.map (fun x => toRRc x.1 x.2)) (ns.map (fun x => toRRc x.1 x.2))
       (ex.map (fun x => toRRc x.1 x.2)) = some B)
     (x : RRItem) (alg : Bytes) (ts fudge macSize : Nat) (mac : Bytes) (origId err olen : Nat) (other : Bytes)
-    (hx : IsTsig x alg ts fudge macSize mac origId err olen other) (hts : ts ≠ 0) (hfu : fudge ≠ 0)
+    (hx : IsTsig x alg ts fudge macSize mac origId err olen other)
     (requestMAC : Bytes) (timersOnly : Bool) (now wall : Nat) (check : Bytes → Bytes → Bytes → Bool)
     (hc : check (tsigDigest B origId
       ⟨presentOf x.spec.labels, x.spec.ttl, alg, ts, fudge, err, olen, other⟩ requestMAC timersOnly) alg mac = true)
@@ -275,7 +275,7 @@ theorem generate_verifies_compressed (id bits : Nat) (qs : List QSpec) (an ns ex
           rw [e] at hc ⊢
           exact generate_verifies id bits _ _ _ _ _ _ (packC_walks qs an ns ex hq han hns hex wq wa wn we m1 m2 m3 m4 h1 h2 h3 h4)
             (by intro t ht; simp only [List.mem_map] at ht; obtain ⟨y, hy, rfl⟩ := ht; exact hno y hy)
-            hbits hauth cq ca cn ce x alg ts fudge macSize mac origId err olen other hx hts hfu requestMAC timersOnly now wall
+            hbits hauth cq ca cn ce x alg ts fudge macSize mac origId err olen other hx requestMAC timersOnly now wall
             check hc hbuf ht1 ht2
 
 /-- the premises are satisfiable: a TSIG record for key `k.`, algorithm `h.`, a two-octet MAC -/
